@@ -82,6 +82,7 @@ type wireAck struct {
 type e2eMember struct {
 	cl              *kgo.Client
 	pendingTerminal map[int64]bool // accept/reject given, not yet covered by a clean FlushAcks
+	lastRenewed     []e2eLoc       // records of the last poll acknowledged with a renew only
 	lastUnacked     []int64        // delivered by the last poll and left without any (or only a renew) acknowledgement
 	errs            int            // callback results with an error, ever
 	errMark         int            // value of errs when pendingTerminal was last emptied
@@ -256,7 +257,12 @@ func TestE2EShareAcks(t *testing.T) {
 					m.pendingTerminal[id] = true
 					sawAutoAccept = true
 				}
-				m.lastUnacked = nil
+				// a renew followed by the implicit accept of the next poll is renew-then-terminal too
+				// (two pending entries sharing one state, see known_e2e_test.go)
+				for _, l := range m.lastRenewed {
+					renewThenTerminal[l] = true
+				}
+				m.lastUnacked, m.lastRenewed = nil, nil
 				i := 0
 				var rest []int64
 				fs.EachRecord(func(r *kgo.Record) {
@@ -288,6 +294,7 @@ func TestE2EShareAcks(t *testing.T) {
 					case 5:
 						r.Ack(kgo.AckRenew)
 						m.lastUnacked = append(m.lastUnacked, id) // a renew alone does not persist: accepted at the next poll
+						m.lastRenewed = append(m.lastRenewed, e2eLoc{r.Partition, r.Offset})
 					default:
 						rest = append(rest, id)
 					}
@@ -360,7 +367,7 @@ func TestE2EShareAcks(t *testing.T) {
 					m.cl.Close()
 					mu.Lock()
 					m.pendingTerminal = map[int64]bool{}
-					m.lastUnacked = nil
+					m.lastUnacked, m.lastRenewed = nil, nil
 					m.errMark = m.errs
 					m.cbDone = 0
 					m.wireBase = wireUserReqs
@@ -434,11 +441,11 @@ func TestE2EShareAcks(t *testing.T) {
 					}
 				}
 				for l, n := range wireTerminal {
-					if renewThenTerminal[l] && knownSplitRenew() {
-						ev.Excluded(knownSplitRenewKey) // open finding, see known_e2e_test.go
-						continue
-					}
 					if d := delivered[l]; d > 0 && n > d {
+						if renewThenTerminal[l] && knownSplitRenew() {
+							ev.Excluded(knownSplitRenewKey) // open finding, see known_e2e_test.go
+							continue
+						}
 						fail("partition %d offset %d was delivered to the application %d time(s) but the broker saw %d accept/reject acknowledgements for it: %v", l.part, l.off, d, n, wireCovered[l])
 					}
 				}
